@@ -65,7 +65,8 @@ MapDiff(ev) ==
       One(p) == LET x == CanvasX(p.lon - clon, ev.scale9)
                     dlat == p.lat - clat
                     \* one row of the canvas and the label's fixed offset of 20 units, in micro-degrees of latitude (linear approximation, generous)
-                    marg == (((20 + 800 \div ch + 15) * 1000) \div (((ev.scale9 \div 1000) * 1389) \div 1000)) * 1000 + 100000
+                    \* (canvas units per degree = scale9/1000 * 1389 / 1000; the margin is (units / units-per-degree) degrees)
+                    marg == (((20 + 800 \div ch + 15) * 1000000) \div ((((ev.scale9 \div 1000) * 1389) \div 1000) + 1)) * 1000 + 100000
                     y == CanvasY(dlat, (p.lat + clat) \div 2, ev.scale9)
                 IN IF ~Has(p.k) \/ p.det = 0 \/ AbsS(x) > 330 THEN {}
                    ELSE (IF AbsS(Lab(p.k).col - LabelCol(x, cw)) <= 1 THEN {} ELSE {"map_column"})
